@@ -897,6 +897,7 @@ WORKLOADS: dict[str, Callable[[], Workflow]] = {
     "backjump1": lambda: wl_backjump(1),
     "backjump2": lambda: wl_backjump(2),
     "sidejump": wl_sidejump,
+    "selfloop2_exact": lambda: wl_selfloop(2, max_jumps=2),
     "loop_skip": wl_loop_skip,
     "backjump1sib": lambda: wl_backjump(1, sibling=True),
     "fwdjump": wl_forward_jump,
